@@ -6,6 +6,16 @@
 
 namespace Fastor {
 
+namespace internal {
+// int32_t lanes of __m128i/__m256i/__m512i (whose element type is long long) must be accessed
+// through an aliasing type
+#if defined(__GNUC__) || defined(__clang__)
+typedef int32_t int32_lane_t __attribute__((__may_alias__));
+#else
+typedef int32_t int32_lane_t;
+#endif
+}
+
 
 // AVX512 VERSION
 //-----------------------------------------------------------------------------------------------
@@ -100,8 +110,8 @@ struct SIMDVector<int32_t,simd_abi::avx512> {
 #endif
     }
 
-    FASTOR_INLINE int32_t operator[](FASTOR_INDEX i) const {return reinterpret_cast<const int32_t*>(&value)[i];}
-    FASTOR_INLINE int32_t operator()(FASTOR_INDEX i) const {return reinterpret_cast<const int32_t*>(&value)[i];}
+    FASTOR_INLINE int32_t operator[](FASTOR_INDEX i) const {return reinterpret_cast<const internal::int32_lane_t*>(&value)[i];}
+    FASTOR_INLINE int32_t operator()(FASTOR_INDEX i) const {return reinterpret_cast<const internal::int32_lane_t*>(&value)[i];}
 
     FASTOR_INLINE void set(int32_t num) {
         value = _mm512_set1_epi32(num);
@@ -184,7 +194,7 @@ struct SIMDVector<int32_t,simd_abi::avx512> {
     }
 
     FASTOR_INLINE int32_t minimum() {
-        int32_t *vals = (int32_t*)&value;
+        internal::int32_lane_t *vals = (internal::int32_lane_t*)&value;
         int32_t quan = 0;
         for (FASTOR_INDEX i=0; i<Size; ++i)
             if (vals[i]<quan)
@@ -192,7 +202,7 @@ struct SIMDVector<int32_t,simd_abi::avx512> {
         return quan;
     }
     FASTOR_INLINE int32_t maximum() {
-        int32_t *vals = (int32_t*)&value;
+        internal::int32_lane_t *vals = (internal::int32_lane_t*)&value;
         int32_t quan = 0;
         for (FASTOR_INDEX i=0; i<Size; ++i)
             if (vals[i]>quan)
@@ -352,7 +362,7 @@ FASTOR_INLINE SIMDVector<int32_t,simd_abi::avx512> abs(const SIMDVector<int32_t,
     out.value = _mm512_abs_epi32(a.value);
 #else
     for (FASTOR_INDEX i=0UL; i<16UL; ++i) {
-       ((int32_t*)&out.value)[i] = std::abs(((int32_t*)&a.value)[i]);
+       ((internal::int32_lane_t*)&out.value)[i] = std::abs(((internal::int32_lane_t*)&a.value)[i]);
     }
 #endif
     return out;
@@ -455,8 +465,8 @@ struct SIMDVector<int32_t,simd_abi::avx> {
 #endif
     }
 
-    FASTOR_INLINE int32_t operator[](FASTOR_INDEX i) const {return reinterpret_cast<const int32_t*>(&value)[i];}
-    FASTOR_INLINE int32_t operator()(FASTOR_INDEX i) const {return reinterpret_cast<const int32_t*>(&value)[i];}
+    FASTOR_INLINE int32_t operator[](FASTOR_INDEX i) const {return reinterpret_cast<const internal::int32_lane_t*>(&value)[i];}
+    FASTOR_INLINE int32_t operator()(FASTOR_INDEX i) const {return reinterpret_cast<const internal::int32_lane_t*>(&value)[i];}
 
     FASTOR_INLINE void set(int32_t num) {
         value = _mm256_set1_epi32(num);
@@ -525,7 +535,7 @@ struct SIMDVector<int32_t,simd_abi::avx> {
     }
 
     FASTOR_INLINE int32_t minimum() {
-        int32_t *vals = (int32_t*)&value;
+        internal::int32_lane_t *vals = (internal::int32_lane_t*)&value;
         int32_t quan = 0;
         for (FASTOR_INDEX i=0; i<Size; ++i)
             if (vals[i]<quan)
@@ -533,7 +543,7 @@ struct SIMDVector<int32_t,simd_abi::avx> {
         return quan;
     }
     FASTOR_INLINE int32_t maximum() {
-        int32_t *vals = (int32_t*)&value;
+        internal::int32_lane_t *vals = (internal::int32_lane_t*)&value;
         int32_t quan = 0;
         for (FASTOR_INDEX i=0; i<Size; ++i)
             if (vals[i]>quan)
@@ -775,8 +785,8 @@ struct SIMDVector<int32_t,simd_abi::sse> {
 #endif
     }
 
-    FASTOR_INLINE int32_t operator[](FASTOR_INDEX i) const {return reinterpret_cast<const int32_t*>(&value)[i];}
-    FASTOR_INLINE int32_t operator()(FASTOR_INDEX i) const {return reinterpret_cast<const int32_t*>(&value)[i];}
+    FASTOR_INLINE int32_t operator[](FASTOR_INDEX i) const {return reinterpret_cast<const internal::int32_lane_t*>(&value)[i];}
+    FASTOR_INLINE int32_t operator()(FASTOR_INDEX i) const {return reinterpret_cast<const internal::int32_lane_t*>(&value)[i];}
 
     FASTOR_INLINE void set(int32_t num) {
         value = _mm_set1_epi32(num);
@@ -845,7 +855,7 @@ struct SIMDVector<int32_t,simd_abi::sse> {
     }
 
     FASTOR_INLINE int32_t minimum() {
-        int32_t *vals = (int32_t*)&value;
+        internal::int32_lane_t *vals = (internal::int32_lane_t*)&value;
         int32_t quan = 0;
         for (FASTOR_INDEX i=0; i<Size; ++i)
             if (vals[i]<quan)
@@ -853,7 +863,7 @@ struct SIMDVector<int32_t,simd_abi::sse> {
         return quan;
     }
     FASTOR_INLINE int32_t maximum() {
-        int32_t *vals = (int32_t*)&value;
+        internal::int32_lane_t *vals = (internal::int32_lane_t*)&value;
         int32_t quan = 0;
         for (FASTOR_INDEX i=0; i<Size; ++i)
             if (vals[i]>quan)
